@@ -527,7 +527,31 @@ func families(run *vk.Run) []*family {
 		keysFamily(run),
 		shapesFamily(run),
 		ireqFamily(run),
+		nreqFamily(run),
 	}
+}
+
+// nreqFamily: S-nreq - @requires inputs that cross an entity boundary
+// (`address { zip }` through the entity Account.address into another subgraph).
+func nreqFamily(run *vk.Run) *family {
+	s := fedlab.SNReq()
+	f := &family{name: "S-nreq", s: s, u: fedlab.SNReqUniverse(s), schema: mustSchema(s.SDL())}
+	d := s.Distributable()
+	mk := func(n int, name string, where map[string]int) *fedlab.Layout {
+		return fedlab.ByType(s, n, func(r fedlab.FieldRef) int { return where[r.String()] }, name)
+	}
+	f.layouts = []*fedlab.Layout{
+		fedlab.NewLayout(s, 1, make([]int, len(d)), "mono"),
+		mk(2, "near0", map[string]int{"Address.zip": 1, "Address.city": 1, "Account.label": 1, "Account.badge": 1}), // decorated in both tiers
+		mk(2, "zip-remote", map[string]int{"Address.zip": 1}),
+		mk(2, "label-remote", map[string]int{"Account.label": 1, "Account.badge": 1}),
+		mk(3, "chain", map[string]int{"Address.zip": 1, "Address.city": 1, "Account.label": 2, "Account.badge": 2}),
+		mk(3, "chain-split", map[string]int{"Address.zip": 1, "Address.city": 2, "Account.label": 2, "Account.badge": 1, "Account.note": 2}),
+		mk(3, "address-remote", map[string]int{"Account.address": 1, "Address.zip": 1, "Address.city": 1, "Account.label": 2, "Account.badge": 2, "Account.name": 1}),
+	}
+	f.base = f.layouts[1].OwnerVector()
+	f.ops = fedlab.GenOps(fedlab.GenConfig{Schema: f.schema, Widths: vk.Pick(run, []int{1, 3, 1}, []int{1, 3, 2})}, "query")
+	return f
 }
 
 // ireqFamily: S-ireq - an interface field that is a @requires field on one
